@@ -142,6 +142,7 @@ _TYPE_DENOTATIONS = ("TENSOR", "IMAGE", "AUDIO", "TEXT", "vendor.custom")
 _DIM_DENOTATIONS = ("DATA_BATCH", "DATA_CHANNEL", "DATA_TIME", "DATA_FEATURE", "FILTER_IN_CHANNEL")
 _DIM_PARAMS = ("N", "batch", "seq_len", "H", "W", "unk__1", "a*b", "n + 1")
 _WORDS = ("alpha", "beta", "gamma", "delta", "kappa", "lambda", "omega", "sigma", "tau", "zeta")
+_BINARY = (b"key\x00", b"\x00", b"\x00lead", b"mid\x00dle", b"two\x00\x00", b"\xff\xfe", b"a\x00b\x00")
 _TEXT = ("", "x", "doc", "Some documentation.", "line1\nline2", "café 日本", "  spaced  ", "a\tb")
 
 
@@ -360,7 +361,11 @@ class ProtoGen:
 
         if dt_name == "STRING":
             for _ in range(n):
-                t.string_data.append(rng.choice(_TEXT).encode("utf-8"))
+                if rng.random() < 0.35:
+                    # string tensors hold BYTES: trailing / leading / interior NULs, non-UTF-8
+                    t.string_data.append(rng.choice(_BINARY))
+                else:
+                    t.string_data.append(rng.choice(_TEXT).encode("utf-8"))
             return
         if allow_external and self.on("external", 0.25):
             t.data_location = TP.EXTERNAL
